@@ -45,6 +45,16 @@ CHECKS["C08"] = ("model_checking",
     "States (Z,Y,n_leaves,n_clusters) are explored breadth-first from the root under ANY admissible split and assignment (a superset of the greedy loop), raw arrays as key; in every state the real find_best_split is called on all leaves, each single leaf, each single feature, with double-star disabled, and under a fan-out of indefinite kernels; claimed gain must equal the recomputed objective increase and no admissible alternative may beat it. Hand-seeded >=4-cluster states and greedy Kauri.fit runs (every call checked, bookkeeping state compared with the reference update rule, final score = root + gains) complete it. Two genuine defects of the Cython source are listed as known findings (Cython is not installed: a source fix cannot be built here).",
     "Compiled extension of the working tree is what is checked; state search capped per root (cap and roots that hit it are reported).",
     "5/C08")
+CHECKS["C09"] = ("exploration",
+    "bounded-exhaustive enumeration of datasets (all row multisets over a lattice) x deviation-bounded tree-limit configurations on the real Kauri.fit vs reference routing",
+    "All multisets of rows over {0,1,2}^d (ties, duplicates, constant features) for small n, offset and seed-generic variants, are fitted with every configuration having <=2 non-default parameters over 7 axes (full product on a subset in thorough); the fitted tree arrays are re-routed by an independent reference: leaf/depth/cluster limits, min_samples_leaf, min_samples_split (root included), observed thresholds, one cluster per leaf, 2*leaves-1 nodes, predict==labels_, region lookup on a query lattice around every threshold, score==objective(predict).",
+    "Bounded to n<=7, d<=3; kernel names mean scikit-learn's pairwise_kernels.",
+    "5/C09")
+CHECKS["C19"] = ("exploration",
+    "bounded-exhaustive enumeration of fitted trees x feature-name lists x query lattice; printed text parsed back by an independent recursive-descent parser",
+    "Every fitted tree of the C09 dataset/configuration grid is printed with no names, with name lists of every length 0..d+1 and as ndarray; the text is parsed back into nested threshold rules which must assign every point of a query lattice the cluster predict gives, name each used feature correctly, and lists that cannot name a used feature, unfitted models and foreign objects must be refused.",
+    "Feature names without comparison operators; thresholds round-trip through Python float repr.",
+    "5/C19")
 NOT_APPLICABLE = {}
 
 def main():
